@@ -96,20 +96,46 @@ def _transition_len(prev_valid, prev_ns, val):
     return ite(Or(V.is_before_min(val), V.is_after_max(val)), 1, ite(use_hours, varint_len(hours), ite(use_mins, varint_len(mins), 9)))
 
 
-@contract(H + "rt_transition", "C14", name="write/read_zone_interval_transition with a previous transition: round trip, exact consumption, canonical choice of form")
+@contract(H + "rt_int64", "C14", name="__write_int64 / __read_int64: 8 bytes, two's complement round trip")
+def _(c):
+    c.arg("v", Int(-(2**63), 2**63 - 1))
+    _io(c)
+    c.returns(lambda a, r: And(r[0] == a.v, r[1] == r[2], r[2] == 8))
+
+
+def _tok_setup(eng):
+    from specs import tzio_models
+
+    tzio_models.install(eng)
+
+
+def _tok_size(tokens):
+    from specs import tzio_models
+
+    toks = tokens.items if hasattr(tokens, "items") and not isinstance(tokens, dict) else tokens
+    if all(isinstance(t, int) for t in toks):
+        return len(toks)  # concrete replay: the real stream holds bytes
+    return tzio_models.stream_size(toks)
+
+
+@contract(H + "rt_transition_tokens", "C14", name="write/read_zone_interval_transition with a previous transition: round trip, exact consumption, canonical choice of form")
 def _(c):
     c.arg("previous", InstantAnyG()).arg("value", InstantAnyG())
     _io(c)
+    c.setup = _tok_setup
+    c.crosscheck = 0
     # the format stores ticks: transitions are tick-aligned; the writer requires value >= previous
     c.requires(lambda a: And(V.inst_ns(a.value) % 100 == 0, V.inst_ns(a.previous) % 100 == 0, V.inst_ns(a.value) >= V.inst_ns(a.previous)))
-    c.returns(lambda a, r: And(same_instant(r[0], a.value), r[1] == r[2], r[2] == _transition_len(V.inv_instant_valid(a.previous), V.inst_ns(a.previous), a.value)))
+    c.returns(lambda a, r: And(same_instant(r[0], a.value), r[1] == r[2], _tok_size(r[3]) == _transition_len(V.inv_instant_valid(a.previous), V.inst_ns(a.previous), a.value)))
     c.timeout_s = 60
 
 
-@contract(H + "rt_transition", "C14", name="write/read_zone_interval_transition without previous transition")
+@contract(H + "rt_transition_tokens", "C14", name="write/read_zone_interval_transition without previous transition")
 def _(c):
     c.arg("previous", Const(None)).arg("value", InstantAnyG())
     _io(c)
+    c.setup = _tok_setup
+    c.crosscheck = 0
     c.requires(lambda a: V.inst_ns(a.value) % 100 == 0)
-    c.returns(lambda a, r: And(same_instant(r[0], a.value), r[1] == r[2], r[2] == _transition_len(False, 0, a.value)))
+    c.returns(lambda a, r: And(same_instant(r[0], a.value), r[1] == r[2], _tok_size(r[3]) == _transition_len(False, 0, a.value)))
     c.timeout_s = 60
